@@ -101,21 +101,20 @@ def main():
              'non-trivial = distinct accepted normal form',
         trusted=['Lean 4.33 kernel', 'axioms: propext, Classical.choice, Quot.sound only',
                  'tools/translate/date2lean.py (dumps lib.gettext._timezones, epoch, the white-space class of the running interpreter; pins the regex texts)',
-                 'the scanner standing for _parse_date / _search_for_date_boilerplate is hand-written: regex text pinned, behaviour tied by the date-fix-* streams',
+                 'Python re finds a derivation of the dumped sre_parse tree iff one exists (Spec/DateRe.lean semantics); the scanners are proved equal to the trees',
                  'strptime / datetime / aware comparison are modelled (parseCanon, Stamp.minutes), tied by the date-fix-* and date-instant streams',
                  'the correspondence harness (tools/checks/date_common.py, Driver/Date.lean); misc.utc_now is patched in the harness only'],
         explanation='Proved for all strings s and all hints (Props/C18.lean): fix_canonical, fix_idempotent, fix_preserves, written_unique, '
                     'fix_accepts (completeness), fix_rejects (exact classification of the five outcomes; the assertion never fails; the only '
                     'outcome besides ok / DateSyntaxError / BoilerplateDate is the ValueError for a malformed hint), fix_tool_outcomes, '
                     'date_tags_iff (each of the five possible tags iff its condition on the counted calendar instant; nothing else), '
-                    'template_placeholder_exempt, no_date_field, NoCrash (check_dates), parse_canon_iff, instant_counts, ordinal_counts, '
+                    'template_placeholder_exempt, no_date_field, check_dates_shape, sorted_set_spec, NoCrash (check_dates), parse_canon_iff, instant_counts, ordinal_counts, '
+                    'parse_date_regex, parseDate_is_regex, boilerplate_regex, regex_groups (the dumped sre_parse trees mean Written / HasBoilerplate), '
                     'canonical_unique, normalises_unique, strip_stripped, regex_pin, epoch_pin, table_pin. Finding (fixed in /repo by 303433e): '
                     'hints accepted by strptime %z but not of the form +HHMM tripped the length assertion or gave a non-ASCII result. '
                     'OUTSTANDING: nothing stated in the design is missing. Modelled rather than verified: strptime / datetime / comparison of '
-                    'aware datetimes (tied by the date-fix-*, date-instant, date-check streams over the calendar boundaries); the language of the '
-                    'two regexes is pinned by text and tied by correspondence, not proved against an Re term; `$` is modelled as end of string '
-                    '(Python also lets it match before a final newline, which strip() makes unreachable); duplicate handling (sorted(set(...))) '
-                    'is modelled and corresponded, no theorem is stated about it. Details: DESIGN-notes/date.md')
+                    'aware datetimes (tied by the date-fix-*, date-instant, date-check streams over the calendar boundaries); Python re is trusted to '
+                    'implement the declarative semantics of the dumped sre_parse trees. Details: DESIGN-notes/date.md')
 
 if __name__ == '__main__':
     common.main_wrapper(main)
